@@ -296,6 +296,125 @@ fn atom_strings(max: usize) -> Vec<Vec<usize>> {
     out
 }
 
+// ------------------------------------------------------------------ lenient inputs
+
+/// Inputs the lenient reader of the subject may accept although they are not well-formed (and some
+/// well-formed ones with a DOCTYPE): the property quantifies over EVERY input on which the transform
+/// returns Ok.
+const LENIENT_TOKENS: &[&[u8]] = &[
+    b"<svg>", b"</svg>", b"<svg xmlns=\"http://www.w3.org/2000/svg\">", b"<svg/>", b"<svg wh=\"10\" text=\"t\"/>", b"<rect wh=\"2\"/>", b"<rect wh=\"2\" a=\"1\" a=\"2\"/>", b"<rect wh=2/>", b"<g>", b"</g>",
+    b"<text>", b"</text>", b"x", b" ", b"&", b"&nope;", b"&#1;", b"\x01", b"<!-- a -- b -->", b"<re&ct/>", b"<?xml version=\"1.0\"?>", b"<!DOCTYPE svg [<!ENTITY e \"v\">]>", b"&e;", b"<![CDATA[c]]>",
+];
+
+/// The kind of ill-formedness the independent reader reports, reduced to a stable category.
+fn defect_kind(msg: &str) -> String {
+    let m = msg.split(": ").last().unwrap_or(msg);
+    let kinds = [
+        ("character data outside the root element", "content-outside-root"),
+        ("CDATA outside the root element", "content-outside-root"),
+        ("reference outside the root element", "content-outside-root"),
+        ("more than one root element", "content-outside-root"),
+        ("document has no root element", "no-root"),
+        ("undeclared entity", "undeclared-entity"),
+        ("unterminated entity reference", "bare-ampersand"),
+        ("invalid Char", "invalid-char"),
+        ("character reference to an invalid Char", "invalid-char"),
+        ("'--' inside comment", "double-hyphen-in-comment"),
+        ("duplicate attribute", "duplicate-attribute"),
+        ("attribute value must be quoted", "unquoted-attribute"),
+        ("expected a name", "invalid-name"),
+        ("white space required before attribute", "invalid-name"),
+        ("unclosed element", "unclosed-element"),
+        ("misplaced XML declaration", "misplaced-declaration"),
+        ("misplaced doctype", "misplaced-doctype"),
+    ];
+    for (needle, kind) in kinds {
+        if m.contains(needle) {
+            return kind.to_string();
+        }
+    }
+    format!("other({})", clip(m, 60))
+}
+
+fn check_lenient(idx: usize, max: usize) -> CaseResult {
+    // decode idx into a token string (shortest first)
+    let n = LENIENT_TOKENS.len();
+    let (mut i, mut len, mut count) = (idx, 0usize, 1usize);
+    while i >= count {
+        i -= count;
+        len += 1;
+        count *= n;
+        if len > max {
+            return CaseResult { case_hash: hash64(&idx), nontrivial: false, outcome_hash: 0, executions: 0, violation: None };
+        }
+    }
+    let mut doc: Vec<u8> = Vec::new();
+    let mut names = Vec::new();
+    for _ in 0..len {
+        doc.extend_from_slice(LENIENT_TOKENS[i % n]);
+        names.push(i % n);
+        i /= n;
+    }
+    let cfg = Cfg::plain();
+    let out = run_bytes(&doc, &cfg);
+    let mut viol = None;
+    let mut nontrivial = false;
+    if let Outcome::Panic(p) = &out {
+        viol = Some(Violation { clause: "panic".into(), signature: "C02/lenient/panic".into(), case: json!({"leg": "lenient", "input": String::from_utf8_lossy(&doc)}), detail: p.clone() });
+    }
+    if let Outcome::Ok(b) = &out {
+        // first element of the input (as far as one can tell): decides whether a single root is required
+        let text = String::from_utf8_lossy(&doc);
+        let first_el = text.find('<').map(|p| &text[p..]).unwrap_or("");
+        let first_el = first_el.trim_start_matches(|c: char| c != '<');
+        let mut rest = first_el;
+        // skip prolog items
+        loop {
+            if rest.starts_with("<?") || rest.starts_with("<!") {
+                match rest[1..].find('<') {
+                    Some(p) => rest = &rest[p + 1..],
+                    None => {
+                        rest = "";
+                        break;
+                    }
+                }
+            } else {
+                break;
+            }
+        }
+        let svg_first = rest.starts_with("<svg");
+        let real_svg = rest.starts_with("<svg xmlns=");
+        let mode = if svg_first { Mode::Document } else { Mode::Content };
+        nontrivial = !b.is_empty();
+        if let Err(e) = xmlref::parse(b, mode) {
+            let kind = defect_kind(&e.to_string());
+            // structural classes of the recorded findings (KNOWN_FINDINGS.txt): what is wrong with the output is
+            // exactly what was wrong with the input and the subject copies it (a) verbatim as 'real' SVG, or
+            // (b) piece by piece in svgdx mode
+            // the input is itself ill-formed if the independent reader rejects it as a document AND as content
+            let input_defect = match (xmlref::parse(&doc, Mode::Document), xmlref::parse(&doc, Mode::Content)) {
+                (Err(e), Err(_)) => Some(defect_kind(&e.to_string())),
+                (Err(e), Ok(_)) if svg_first => Some(defect_kind(&e.to_string())),
+                _ => None,
+            };
+            let class = if real_svg && *b == doc && input_defect.is_some() {
+                "real-svg-ill-formed-input-copied-verbatim".to_string()
+            } else if input_defect.is_some() {
+                format!("ill-formed-input-accepted/{kind}")
+            } else {
+                format!("output-not-well-formed/{kind}")
+            };
+            viol = Some(Violation {
+                clause: "output-not-well-formed".into(),
+                signature: format!("C02/lenient/{class}"),
+                case: json!({"leg": "lenient", "input": text, "input_hex": doc.iter().map(|b| format!("{b:02x}")).collect::<String>()}),
+                detail: format!("input {:?} (defect of the input: {:?})\noutput is not well-formed: {e}\noutput: {}", text, input_defect, clip(&String::from_utf8_lossy(b), 400)),
+            });
+        }
+    }
+    CaseResult { case_hash: hash64(&doc), nontrivial, outcome_hash: hash64(&format!("{out:?}")), executions: 1, violation: viol }
+}
+
 pub fn run(tier: Tier) -> i32 {
     let mut rep = Report::new("C02", tier, "exploration");
     let k = tier.pick(2, 3);
@@ -320,6 +439,12 @@ pub fn run(tier: Tier) -> i32 {
     rep.set("sinks", json!(SINKS.len()));
     rep.set("strings", json!(strings.len()));
     rep.absorb("value-flow", st);
+    // lenient inputs
+    let lmax = tier.pick(3, 4);
+    let ltotal: usize = (0..=lmax).map(|l| LENIENT_TOKENS.len().pow(l as u32)).sum();
+    let st = run_space(ltotal, |i| check_lenient(i, lmax));
+    rep.set("lenient_inputs", json!(ltotal));
+    rep.absorb("lenient", st);
     // the oracle itself is bound to a second implementation
     match crate::xmlref::expat_conformance(tier.pick(3, 5)) {
         Ok((n, acc)) => rep.set("oracle_conformance", json!({"against": "expat (python3 stdlib)", "documents": n, "accepted_by_both": acc, "rule": "every string of <= k tokens over a 31-token XML alphabet: same well-formedness verdict and same event stream"})),
